@@ -99,7 +99,7 @@ PROPS = {
     "C11": {
         "witness": ("w_server", ['w_c11_handshake']),
         "title": "Greeting is well-formed and no command is served before the shim authenticates",
-        "kani": [("k2_commands", ["k2_handshake_fixed", "k2_handshake_user"]), ("k5_errors", ["k5_emitted"])],
+        "kani": [("k2_commands", ["k2_handshake_fixed", "k2_handshake_user", "k2_handshake_user_any"]), ("k5_errors", ["k5_emitted"])],
         "verus": [(U5, ["U5.", "C12.init", "C05.init", "C12.run_on"])],
     },
     "C12": {
